@@ -58,14 +58,18 @@
    shows that each glue operation is a sequence of ring-level writer and reader operations
    ([C02_glue_step_refines]), so the ring theorems above apply.
 
-   What remains outside the theorems (hence "partial" overall): liveness of the glue (that a drain
-   delivers everything) is decided against the specification [sspec_run] only; the poll() paths
-   with a timeout, POLLOUT handling and memory-mapped streams are not modelled. *)
+   Liveness of the glue's reader side: [C02_dispatch_delivers] -- once a complete accepted frame
+   is in the input ring (any reachable glue state), one mpt_stream_dispatch delivers a message.
+
+   What remains outside the theorems (hence "partial" overall): that flush and poll move every
+   finished byte through the kernel (transfer progress depends on the oracle) is decided against
+   the specification [sspec_run] only; the poll() paths with a timeout, POLLOUT handling and
+   memory-mapped streams are not modelled. *)
 From MptV Require Import Base.Mem Cobs.CobsModel Cobs.DecModel Cobs.EncProofs Cobs.EncTheorems
   Cobs.DecProofs Cobs.DecComplete Cobs.StreamSpec Cobs.StreamProofs
   C13.QueueModel Cobs.QueueCodec Cobs.QueuePushProofs Cobs.QueuePushTheorem Cobs.WriterHistory
   Cobs.DecCall Cobs.DecHistory Cobs.ReaderHistory Cobs.DecLive Cobs.ReaderLive Cobs.EndToEnd
-  Cobs.DecStream Cobs.ReaderStream Cobs.GlueRun Cobs.GlueProofs.
+  Cobs.DecStream Cobs.ReaderStream Cobs.GlueRun Cobs.GlueProofs Cobs.GlueLive.
 
 Theorem C02_wire_splits_into_frames :
   forall v ms wire, frames_of v ms wire ->
@@ -253,6 +257,23 @@ Theorem C02_glue_history_safe :
     exists g', grel v w' g' /\ g_del g' = del' /\ wh_done (g_ws g') = sp_done sp' /\ rh_stop (g_rs g') = false.
 Proof. exact glue_history_safe. Qed.
 
+(* LIVENESS of the glue's reader side: in ANY state a glue history can reach, once the unread bytes
+   of the input ring complete (or start) a frame the reference decoder accepts -- [dlive] -- or a
+   message is already held, ONE mpt_stream_dispatch hands a message to the handler: streamRecv
+   enlarges the ring in steps of 64 as often as the decoder asks for scratch space, each step
+   consumes at least 47 bytes of the frame, and the loop ends within the rounds the model allows
+   (so the model never cuts it short) *)
+Theorem C02_stream_recv_delivers :
+  forall v rs pre tl z d', rh_inv v rs -> rh_stop rs = false -> dlive v (rh_d rs) pre tl ->
+    grecv v (rh_d rs) = Ok (z, d') -> z = 1%Z.
+Proof. exact grecv_delivers. Qed.
+
+Theorem C02_dispatch_delivers :
+  forall v w g pre tl z m w', grel v w g ->
+    dlive v (gr w) pre tl \/ dmsg (dq_st (gr w)) <> None ->
+    gdisp v w = Ok (z, m, w') -> exists x, m = Some x.
+Proof. exact gdisp_delivers. Qed.
+
 (* ring level of the same fact: mpt_queue_recv never reports a decoding error while the bytes in
    the input ring are a prefix of a well-formed stream *)
 Theorem C02_queue_recv_no_error_on_stream_prefix :
@@ -339,3 +360,5 @@ Print Assumptions C02_glue_history_safe.
 Print Assumptions C02_queue_recv_no_error_on_stream_prefix.
 Print Assumptions C02_ring_round_progress.
 Print Assumptions C02_ring_dispatch_policy_delivers.
+Print Assumptions C02_stream_recv_delivers.
+Print Assumptions C02_dispatch_delivers.
